@@ -36,26 +36,27 @@ func Revoke(w http.ResponseWriter, r *http.Request, revoker Revoker) {
 	r = r.WithContext(ctx)
 	defer span.End()
 
-	token, tokenTypeHint, clientID, err := ParseTokenRevocationRequest(r, revoker)
+	// the token_type_hint is not evaluated: it may be wrong and must not narrow the search (RFC 7009, section 2.1)
+	token, _, clientID, err := ParseTokenRevocationRequest(r, revoker)
 	if err != nil {
 		RevocationRequestError(w, r, err)
 		return
 	}
 	var subject string
 	doDecrypt := true
-	if tokenTypeHint != "access_token" {
-		userID, tokenID, err := revoker.Storage().GetRefreshTokenInfo(r.Context(), clientID, token)
-		if err != nil {
-			// An invalid refresh token means that we'll try other things (leaving doDecrypt==true)
-			if !errors.Is(err, ErrInvalidRefreshToken) {
-				RevocationRequestError(w, r, oidc.ErrServerError().WithParent(err))
-				return
-			}
-		} else {
-			token = tokenID
-			subject = userID
-			doDecrypt = false
+	// a token the storage knows as a refresh token is one, whatever the hint says; only other strings
+	// are tried as access tokens (an arbitrary string may well "decrypt" into something that looks like one)
+	userID, tokenID, err := revoker.Storage().GetRefreshTokenInfo(r.Context(), clientID, token)
+	if err != nil {
+		// An invalid refresh token means that we'll try other things (leaving doDecrypt==true)
+		if !errors.Is(err, ErrInvalidRefreshToken) {
+			RevocationRequestError(w, r, oidc.ErrServerError().WithParent(err))
+			return
 		}
+	} else {
+		token = tokenID
+		subject = userID
+		doDecrypt = false
 	}
 	if doDecrypt {
 		tokenID, userID, ok := getTokenIDAndSubjectForRevocation(r.Context(), revoker, token)
